@@ -166,7 +166,7 @@ def try_body_may_raise(func):
     return mr
 
 
-def resolve(func, expr, depth=6):
+def resolve(func, expr, depth=6, loops=False, keep=()):
     """copy of expr in which every local that func assigns exactly once (plain `name = value`, outside loops, not a
     parameter) is replaced by its (resolved) value - the expression the code computes, whatever temporaries it names"""
     import copy
@@ -178,7 +178,7 @@ def resolve(func, expr, depth=6):
             stores.setdefault(n.id, []).append(n)
     defs = {}
     for name, ss in stores.items():
-        if len(ss) != 1 or name in params:
+        if len(ss) != 1 or name in params or name in keep:
             continue
         st = parent(ss[0])
         if not (isinstance(st, ast.Assign) and len(st.targets) == 1 and st.targets[0] is ss[0]):
@@ -188,7 +188,8 @@ def resolve(func, expr, depth=6):
             if isinstance(p, (ast.For, ast.While, ast.AsyncFor)):
                 in_loop = True
             p = parent(p)
-        if not in_loop:
+        if not in_loop or (loops and getattr(st, 'lineno', 0) < getattr(expr, 'lineno', 0)):
+            # loops=True: a name assigned once inside a loop, textually before the expression that reads it in the same function
             defs[name] = st.value
 
     class R(ast.NodeTransformer):
@@ -307,6 +308,17 @@ def elementwise(func):
                         elif kind == 'dict' and isinstance(f_, ast.Assign) and len(f_.targets) == 1 and isinstance(f_.targets[0], ast.Subscript) \
                                 and src(f_.targets[0].value) == name:
                             out.setdefault(name, []).append((('dict', src(later.iter), _placeholders(later.target, [f_.targets[0].slice, f_.value])), later))
+                        elif kind == 'dict' and isinstance(f_, ast.If) and len(f_.body) == 1 and len(f_.orelse) == 1 and \
+                                all(isinstance(x_, ast.Assign) and len(x_.targets) == 1 and isinstance(x_.targets[0], ast.Subscript) and src(x_.targets[0].value) == name
+                                    for x_ in (f_.body[0], f_.orelse[0])) and src(f_.body[0].targets[0].slice) == src(f_.orelse[0].targets[0].slice):
+                            # the same key on both arms: the value is a conditional expression
+                            val = ast.IfExp(test=f_.test, body=f_.body[0].value, orelse=f_.orelse[0].value)
+                            out.setdefault(name, []).append((('dict', src(later.iter), _placeholders(later.target, [f_.body[0].targets[0].slice, val])), later))
+                        elif kind == 'list' and isinstance(f_, ast.If) and len(f_.body) == 1 and len(f_.orelse) == 1 and \
+                                all(isinstance(x_, ast.Expr) and isinstance(x_.value, ast.Call) and src(x_.value.func) == name + '.append' and len(x_.value.args) == 1
+                                    for x_ in (f_.body[0], f_.orelse[0])):
+                            val = ast.IfExp(test=f_.test, body=f_.body[0].value.args[0], orelse=f_.orelse[0].value.args[0])
+                            out.setdefault(name, []).append((('list', src(later.iter), _placeholders(later.target, [val])[0]), later))
                 break
     return out
 
@@ -362,3 +374,41 @@ def passes_before(g, start, target, through):
             return False
         work.extend(x for x, l in n.succ if not (l and l[0] == 'exc'))
     return True
+
+
+def float_taint(repo, mod, fn, e, depth=0):
+    """why the value of expression e (inside function fn of module mod) may be a float - a float literal, a true division, float(),
+    total_seconds(), time.time(), or a helper (of this module, or `util.<name>` of cassandra/util.py) whose result is one - or None"""
+    for x in ast.walk(e):
+        if isinstance(x, ast.Constant) and isinstance(x.value, float):
+            return 'float literal %r' % x.value
+        if isinstance(x, ast.BinOp) and isinstance(x.op, ast.Div):
+            return 'true division %s' % src(x)[:50]
+        if isinstance(x, ast.Call) and isinstance(x.func, ast.Name) and x.func.id == 'float':
+            return 'float()'
+        if isinstance(x, ast.Call) and isinstance(x.func, ast.Attribute) and x.func.attr == 'total_seconds':
+            return 'timedelta.total_seconds() is a float'
+        if isinstance(x, ast.Call) and src(x.func) == 'time.time':
+            return 'time.time() is a float'
+        if isinstance(x, ast.Call) and depth < 3:
+            callee = cmod = None
+            if isinstance(x.func, ast.Name) and mod.has(x.func.id) and isinstance(mod.get(x.func.id), ast.FunctionDef):
+                callee, cmod = mod.get(x.func.id), mod
+            elif isinstance(x.func, ast.Attribute) and src(x.func.value) == 'util':
+                um = repo.mod('cassandra/util.py')
+                if um.has(x.func.attr) and isinstance(um.get(x.func.attr), ast.FunctionDef):
+                    callee, cmod = um.get(x.func.attr), um
+            if callee is not None:
+                # a float handed to the helper, or made by it
+                for r in walk_no_nested(callee):
+                    if isinstance(r, ast.Return) and r.value is not None:
+                        why = float_taint(repo, cmod, callee, r.value, depth + 1)
+                        if why:
+                            return '%s() returns a float (%s)' % (callee.name, why)
+        if isinstance(x, ast.Name) and isinstance(x.ctx, ast.Load) and depth < 3:
+            defs = [st for st in walk_no_nested(fn) if isinstance(st, ast.Assign) and any(isinstance(t, ast.Name) and t.id == x.id for t in st.targets)]
+            if len(defs) == 1 and defs[0].value is not e:
+                why = float_taint(repo, mod, fn, defs[0].value, depth + 1)
+                if why:
+                    return '%s = %s' % (x.id, why)
+    return None
